@@ -462,6 +462,12 @@ func textChainProblem(t *crdt.Text) string {
 	}
 	for _, k := range order {
 		ps := by[k]
+		// Text.DeepCopy (what builds the working copy of Document.Update) links a piece to
+		// its insPrev by looking it up among the pieces already copied: the pieces of one
+		// insertion have to stand in the chain in offset order
+		if !sort.SliceIsSorted(ps, func(i, j int) bool { return ps[i].off < ps[j].off }) {
+			return fmt.Sprintf("pieces of insertion %s stand out of offset order in the text: %s", k, t.ToTestString())
+		}
 		sort.Slice(ps, func(i, j int) bool { return ps[i].off < ps[j].off })
 		for i, p := range ps {
 			want := ""
@@ -471,6 +477,54 @@ func textChainProblem(t *crdt.Text) string {
 			if p.prev != want {
 				return fmt.Sprintf("insertion chain broken: piece %s has insPrev=%q, its nearest surviving left sibling is %q; text %s",
 					p.id, p.prev, want, t.ToTestString())
+			}
+		}
+	}
+	return ""
+}
+
+// treeChainProblem is textChainProblem for the text pieces of a Tree: the pieces of one
+// insertion that still exist are linked, through InsPrevID, in offset order. ToTreeNodes
+// resolves a position on a piece boundary through that link; when it names anything but the
+// nearest surviving left sibling, every edit at that boundary fails with "split offset out
+// of range". Ids are resolved the way the tree does it (floor among the same insertion).
+func treeChainProblem(t *crdt.Tree) string {
+	by := map[string][]*crdt.TreeNode{}
+	var order []string
+	for _, n := range t.Nodes() {
+		if !n.IsText() {
+			continue
+		}
+		k := n.ID().CreatedAt.Key()
+		if _, ok := by[k]; !ok {
+			order = append(order, k)
+		}
+		by[k] = append(by[k], n)
+	}
+	for _, k := range order {
+		ps := by[k]
+		sort.SliceStable(ps, func(i, j int) bool { return ps[i].ID().Offset < ps[j].ID().Offset })
+		for i, p := range ps {
+			var want, got *crdt.TreeNode
+			if i > 0 {
+				want = ps[i-1]
+			}
+			if id := p.InsPrevID; id != nil && id.CreatedAt.Key() == k {
+				for _, q := range ps {
+					if q.ID().Offset <= id.Offset {
+						got = q
+					}
+				}
+			}
+			if got != want {
+				name := func(n *crdt.TreeNode) string {
+					if n == nil {
+						return "none"
+					}
+					return fmt.Sprintf("%s:%d %q", n.ID().CreatedAt.Key(), n.ID().Offset, n.Value)
+				}
+				return fmt.Sprintf("tree insertion chain broken: text piece %s has InsPrevID resolving to %s, its nearest surviving left sibling is %s; tree %s",
+					name(p), name(got), name(want), t.ToXML())
 			}
 		}
 	}
@@ -505,6 +559,10 @@ func textIndexProblem(d *document.Document) string {
 					bad = which + ": " + p
 				}
 			}()
+		case *crdt.Tree:
+			if p := treeChainProblem(v); p != "" {
+				bad = which + ": " + p
+			}
 		}
 	}
 	walk(d.RootObject(), "document")
